@@ -1,3 +1,328 @@
-(* placeholder: theorems follow *)
-From CC Require Import Theory.Field Model.Network.
-Example C03_model_runs : True. Proof. exact I. Qed.
+(* C03 — Invariance under renaming, listing order, terminal reversal and choice of the reference node.
+   Statements only; every proof is [exact <lemma>] (lemmas in Theory/Invariance.v, Theory/WPCheck.v).
+   Vocabulary: [solves n x] — x solves the MNA system assembled (with SORTED index maps) from n;
+   [phi_of n x l] — potential of node l read off x; [flow_of n x b] — first->second terminal flow of branch b;
+   [bvolt phi b] — voltage of b; [reported n x b] — what get_current reports (generator direction for linear
+   sources); power = voltage * conj(reported current).  [WellPosed n] — the circuit equations of n have exactly
+   one solution (on node potentials and branch flows). *)
+From Coq Require Import List Bool ZArith NArith Permutation.
+From CC Require Import Theory.Field Theory.Complex Theory.Labels Model.Network Theory.Spec Theory.Mna
+  Theory.MnaComplete Theory.Api Theory.Invariance Theory.WPCheck.
+Import ListNotations.
+
+(* ===================================== 1. renaming ===================================== *)
+(* rename_net sigma tau n: node labels through sigma, element names through tau.
+   [inj_on ls f]: f is injective on the labels in ls ("any distinct strings"). *)
+
+Theorem C03_rename_wf : forall (K : fops) (sigma tau : label -> label) (n : network K),
+  wf n -> inj_on (node_labels n) sigma -> inj_on (branch_ids n) tau -> wf (rename_net sigma tau n).
+Proof. exact wf_rename. Qed.
+Print Assumptions C03_rename_wf.
+
+Theorem C03_rename_wellposed : forall (K : fops) (KOK : fops_ok K) (sigma tau : label -> label) (n : network K),
+  wf n -> inj_on (node_labels n) sigma -> inj_on (branch_ids n) tau ->
+  (WellPosed n <-> WellPosed (rename_net sigma tau n)).
+Proof. exact wellposed_rename. Qed.
+Print Assumptions C03_rename_wellposed.
+
+(* strongest form: injectivity only on the labels that occur *)
+Theorem C03_rename_on : forall (K : fops) (KOK : fops_ok K) (sigma tau : label -> label) (n : network K)
+    (x x' : list K),
+  wf n -> WellPosed n -> inj_on (node_labels n) sigma -> inj_on (branch_ids n) tau ->
+  solves n x -> solves (rename_net sigma tau n) x' ->
+  (forall l, In l (node_labels n) -> phi_of (rename_net sigma tau n) x' (sigma l) = phi_of n x l)
+  /\ (forall b, In b (branches n) ->
+        flow_of (rename_net sigma tau n) x' (rename_branch sigma tau b) = flow_of n x b
+        /\ bvolt (phi_of (rename_net sigma tau n) x') (rename_branch sigma tau b) = bvolt (phi_of n x) b
+        /\ reported (rename_net sigma tau n) x' (rename_branch sigma tau b) = reported n x b
+        /\ fmul K (bvolt (phi_of (rename_net sigma tau n) x') (rename_branch sigma tau b))
+                  (fconj K (reported (rename_net sigma tau n) x' (rename_branch sigma tau b)))
+           = fmul K (bvolt (phi_of n x) b) (fconj K (reported n x b))).
+Proof. exact rename_invariant. Qed.
+Print Assumptions C03_rename_on.
+
+Theorem C03_rename : forall (K : fops) (KOK : fops_ok K) (sigma tau : label -> label) (n : network K)
+    (x x' : list K),
+  wf n -> WellPosed n ->
+  (forall a b, sigma a = sigma b -> a = b) -> (forall a b, tau a = tau b -> a = b) ->
+  solves n x -> solves (rename_net sigma tau n) x' ->
+  (forall l, In l (node_labels n) -> phi_of (rename_net sigma tau n) x' (sigma l) = phi_of n x l)
+  /\ (forall b, In b (branches n) ->
+        flow_of (rename_net sigma tau n) x' (rename_branch sigma tau b) = flow_of n x b
+        /\ bvolt (phi_of (rename_net sigma tau n) x') (rename_branch sigma tau b) = bvolt (phi_of n x) b
+        /\ reported (rename_net sigma tau n) x' (rename_branch sigma tau b) = reported n x b
+        /\ fmul K (bvolt (phi_of (rename_net sigma tau n) x') (rename_branch sigma tau b))
+                  (fconj K (reported (rename_net sigma tau n) x' (rename_branch sigma tau b)))
+           = fmul K (bvolt (phi_of n x) b) (fconj K (reported n x b))).
+Proof. exact rename_invariant_inj. Qed.
+Print Assumptions C03_rename.
+
+(* what the API returns on the two solution records *)
+Theorem C03_rename_api : forall (K : fops) (KOK : fops_ok K) (sigma tau : label -> label) (n : network K)
+    (s s' : solution K),
+  wf n -> WellPosed n -> inj_on (node_labels n) sigma -> inj_on (branch_ids n) tau ->
+  solve_network n = Ok s -> solve_network (rename_net sigma tau n) = Ok s' ->
+  (forall l, In l (node_labels n) -> get_potential s' (sigma l) = get_potential s l)
+  /\ (forall b, In b (branches n) ->
+        get_voltage s' (tau (bid b)) = get_voltage s (bid b)
+        /\ get_current s' (tau (bid b)) = get_current s (bid b)
+        /\ get_power s' (tau (bid b)) = get_power s (bid b)).
+Proof. exact rename_api. Qed.
+Print Assumptions C03_rename_api.
+
+(* ===================================== 2. listing order ===================================== *)
+Theorem C03_perm_wf : forall (K : fops) (n n' : network K),
+  wf n -> Permutation (branches n) (branches n') -> zero n' = zero n -> wf n'.
+Proof. exact wf_perm. Qed.
+Print Assumptions C03_perm_wf.
+
+Theorem C03_perm_wellposed : forall (K : fops) (KOK : fops_ok K) (n n' : network K),
+  wf n -> Permutation (branches n) (branches n') -> zero n' = zero n -> WellPosed n -> WellPosed n'.
+Proof. exact wellposed_perm. Qed.
+Print Assumptions C03_perm_wellposed.
+
+Theorem C03_perm : forall (K : fops) (KOK : fops_ok K) (n n' : network K) (x x' : list K),
+  wf n -> WellPosed n -> Permutation (branches n) (branches n') -> zero n' = zero n ->
+  solves n x -> solves n' x' ->
+  (forall l, In l (node_labels n) -> phi_of n' x' l = phi_of n x l)
+  /\ (forall b, In b (branches n) ->
+        flow_of n' x' b = flow_of n x b
+        /\ bvolt (phi_of n' x') b = bvolt (phi_of n x) b
+        /\ reported n' x' b = reported n x b
+        /\ fmul K (bvolt (phi_of n' x') b) (fconj K (reported n' x' b))
+           = fmul K (bvolt (phi_of n x) b) (fconj K (reported n x b))).
+Proof. exact perm_invariant. Qed.
+Print Assumptions C03_perm.
+
+Theorem C03_perm_api : forall (K : fops) (KOK : fops_ok K) (n n' : network K) (s s' : solution K),
+  wf n -> WellPosed n -> Permutation (branches n) (branches n') -> zero n' = zero n ->
+  solve_network n = Ok s -> solve_network n' = Ok s' ->
+  (forall l, In l (node_labels n) -> get_potential s' l = get_potential s l)
+  /\ (forall b, In b (branches n) ->
+        get_voltage s' (bid b) = get_voltage s (bid b)
+        /\ get_current s' (bid b) = get_current s (bid b)
+        /\ get_power s' (bid b) = get_power s (bid b)).
+Proof. exact perm_api. Qed.
+Print Assumptions C03_perm_api.
+
+(* ===================================== 3. terminal reversal ===================================== *)
+(* reverse_net r n: every branch whose id satisfies r has its terminals swapped and its source value
+   (V of a Z/V element, I of a Y/I element) negated: rev_branch. *)
+Theorem C03_reverse_wf : forall (K : fops) (r : label -> bool) (n : network K), wf n -> wf (reverse_net r n).
+Proof. exact wf_reverse. Qed.
+Print Assumptions C03_reverse_wf.
+
+Theorem C03_reverse_wellposed : forall (K : fops) (KOK : fops_ok K) (r : label -> bool) (n : network K),
+  wf n -> WellPosed n -> WellPosed (reverse_net r n).
+Proof. exact wellposed_reverse. Qed.
+Print Assumptions C03_reverse_wellposed.
+
+Theorem C03_reverse : forall (K : fops) (KOK : fops_ok K) (r : label -> bool) (n : network K) (x x' : list K),
+  wf n -> WellPosed n -> solves n x -> solves (reverse_net r n) x' ->
+  (forall l, In l (node_labels n) -> phi_of (reverse_net r n) x' l = phi_of n x l)
+  /\ (forall b, In b (branches n) -> r (bid b) = true ->
+        In (rev_branch b) (branches (reverse_net r n))
+        /\ flow_of (reverse_net r n) x' (rev_branch b) = fopp K (flow_of n x b)
+        /\ bvolt (phi_of (reverse_net r n) x') (rev_branch b) = fopp K (bvolt (phi_of n x) b)
+        /\ reported (reverse_net r n) x' (rev_branch b) = fopp K (reported n x b)
+        /\ fmul K (bvolt (phi_of (reverse_net r n) x') (rev_branch b))
+                  (fconj K (reported (reverse_net r n) x' (rev_branch b)))
+           = fmul K (bvolt (phi_of n x) b) (fconj K (reported n x b)))
+  /\ (forall b, In b (branches n) -> r (bid b) = false ->
+        In b (branches (reverse_net r n))
+        /\ flow_of (reverse_net r n) x' b = flow_of n x b
+        /\ bvolt (phi_of (reverse_net r n) x') b = bvolt (phi_of n x) b
+        /\ reported (reverse_net r n) x' b = reported n x b
+        /\ fmul K (bvolt (phi_of (reverse_net r n) x') b) (fconj K (reported (reverse_net r n) x' b))
+           = fmul K (bvolt (phi_of n x) b) (fconj K (reported n x b))).
+Proof. exact reverse_invariant_explicit. Qed.
+Print Assumptions C03_reverse.
+
+Theorem C03_reverse_api : forall (K : fops) (KOK : fops_ok K) (r : label -> bool) (n : network K)
+    (s s' : solution K),
+  wf n -> WellPosed n -> solve_network n = Ok s -> solve_network (reverse_net r n) = Ok s' ->
+  (forall l, In l (node_labels n) -> get_potential s' l = get_potential s l)
+  /\ (forall b, In b (branches n) -> exists v i,
+        get_voltage s (bid b) = Ok v /\ get_current s (bid b) = Ok i
+        /\ get_power s (bid b) = Ok (fmul K v (fconj K i))
+        /\ get_voltage s' (bid b) = Ok (if r (bid b) then fopp K v else v)
+        /\ get_current s' (bid b) = Ok (if r (bid b) then fopp K i else i)
+        /\ get_power s' (bid b) = Ok (fmul K v (fconj K i))).
+Proof. exact reverse_api. Qed.
+Print Assumptions C03_reverse_api.
+
+(* ===================================== 4. reference node ===================================== *)
+Theorem C03_reground_wf : forall (K : fops) (g : label) (n : network K),
+  wf n -> In g (node_labels n) -> wf (reground g n).
+Proof. exact wf_reground. Qed.
+Print Assumptions C03_reground_wf.
+
+Theorem C03_reground_wellposed : forall (K : fops) (KOK : fops_ok K) (g : label) (n : network K),
+  wf n -> In g (node_labels n) -> WellPosed n -> WellPosed (reground g n).
+Proof. exact wellposed_reground. Qed.
+Print Assumptions C03_reground_wellposed.
+
+Theorem C03_reground : forall (K : fops) (KOK : fops_ok K) (g : label) (n : network K) (x x' : list K),
+  wf n -> WellPosed n -> In g (node_labels n) -> solves n x -> solves (reground g n) x' ->
+  (forall l, In l (node_labels n) -> phi_of (reground g n) x' l = fsub K (phi_of n x l) (phi_of n x g))
+  /\ (forall b, In b (branches n) ->
+        flow_of (reground g n) x' b = flow_of n x b
+        /\ bvolt (phi_of (reground g n) x') b = bvolt (phi_of n x) b
+        /\ reported (reground g n) x' b = reported n x b
+        /\ fmul K (bvolt (phi_of (reground g n) x') b) (fconj K (reported (reground g n) x' b))
+           = fmul K (bvolt (phi_of n x) b) (fconj K (reported n x b))).
+Proof. exact reground_invariant. Qed.
+Print Assumptions C03_reground.
+
+Theorem C03_reground_api : forall (K : fops) (KOK : fops_ok K) (g : label) (n : network K) (s s' : solution K),
+  wf n -> WellPosed n -> In g (node_labels n) ->
+  solve_network n = Ok s -> solve_network (reground g n) = Ok s' ->
+  (forall l, In l (node_labels n) -> exists p pg,
+        get_potential s l = Ok p /\ get_potential s g = Ok pg /\ get_potential s' l = Ok (fsub K p pg))
+  /\ (forall b, In b (branches n) ->
+        get_voltage s' (bid b) = get_voltage s (bid b)
+        /\ get_current s' (bid b) = get_current s (bid b)
+        /\ get_power s' (bid b) = get_power s (bid b)).
+Proof. exact reground_api. Qed.
+Print Assumptions C03_reground_api.
+
+(* A boolean certificate of well-posedness, so that [WellPosed] is a checkable hypothesis:
+   the solver succeeds and the computed inverse of the MNA matrix is also a left inverse. *)
+Theorem C03_wellposed_certificate : forall (K : fops) (KOK : fops_ok K) (n : network K),
+  wfb n = true -> wpb n = true -> WellPosed n.
+Proof. exact @wpb_ok. Qed.
+Print Assumptions C03_wellposed_certificate.
+
+(* ===================================== non-vacuity ===================================== *)
+(* Nodes "0" (reference), "1", "10", "2", "9"; two ideal voltage sources U, V; a linear voltage source L; an
+   ideal current source I; a linear current source J; passive R, S, Z (a Z-type element), Y (a Y-type element, anti-parallel to Z). *)
+Definition L (z : Z) : label := [Z.to_N z].
+Definition n10 : label := [49%N; 48%N].
+Definition ex_net : network CQ :=
+  {| zero := L 48;
+     branches := [ Build_branch (L 49) (L 48) (voltage_source (L 86) (cq 5 1 1 1) (cq 0 1 0 1));
+                   Build_branch (L 49) n10 (resistor (L 82) (cq 2 1 0 1));
+                   Build_branch n10 (L 57) (impedance (L 90) (cq 3 1 4 1));
+                   Build_branch (L 57) n10 (conductor (L 89) (cq 1 2 (-1) 4));
+                   Build_branch (L 48) (L 57) (voltage_source (L 76) (cq 7 1 0 1) (cq 2 1 1 1));
+                   Build_branch (L 57) (L 49) (current_source (L 73) (cq (-2) 1 1 2) (cq 0 1 0 1));
+                   Build_branch (L 50) n10 (voltage_source (L 85) (cq 1 1 (-1) 1) (cq 0 1 0 1));
+                   Build_branch (L 50) (L 48) (resistor (L 83) (cq 3 1 0 1));
+                   Build_branch (L 50) (L 57) (current_source (L 74) (cq 1 1 0 1) (cq 1 3 0 1)) ] |}.
+
+Example C03_ex_wf : wfb ex_net = true.
+Proof. vm_compute. reflexivity. Qed.
+Example C03_ex_wpb : wpb ex_net = true.
+Proof. vm_compute. reflexivity. Qed.
+Example C03_ex_wellposed : WellPosed ex_net.
+Proof. exact (wpb_ok CQ_ok ex_net C03_ex_wf C03_ex_wpb). Qed.
+Example C03_ex_wf' : wf ex_net.
+Proof. exact (proj1 (wfb_ok ex_net C03_ex_wf)). Qed.
+Example C03_ex_solved : solvedb ex_net = true.
+Proof. vm_compute. reflexivity. Qed.
+
+(* --- renaming: node "10" becomes "A" (now sorts after "9"), source "U" becomes "W" (now sorts after "V") --- *)
+Definition ex_sigma : label -> label := swap_label n10 (L 65).
+Definition ex_tau : label -> label := swap_label (L 85) (L 87).
+Definition ex_ren : network CQ := rename_net ex_sigma ex_tau ex_net.
+
+Example C03_ex_sigma_inj : forall a b, ex_sigma a = ex_sigma b -> a = b.
+Proof. exact (swap_label_inj n10 (L 65)). Qed.
+Example C03_ex_tau_inj : forall a b, ex_tau a = ex_tau b -> a = b.
+Proof. exact (swap_label_inj (L 85) (L 87)). Qed.
+
+Example C03_ex_node_order : node_index ex_net = [L 49; n10; L 50; L 57] /\ node_index ex_ren = [L 49; L 50; L 57; L 65].
+Proof. vm_compute. split; reflexivity. Qed.
+Example C03_ex_source_order : vs_index ex_net = [L 85; L 86] /\ vs_index ex_ren = [L 86; L 87].
+Proof. vm_compute. split; reflexivity. Qed.
+Example C03_ex_ren_solved : wfb ex_ren = true /\ solvedb ex_ren = true.
+Proof. vm_compute. split; reflexivity. Qed.
+
+Example C03_ex_rename_applies : exists s s', solve_network ex_net = Ok s /\ solve_network ex_ren = Ok s'
+  /\ (forall l, In l (node_labels ex_net) -> get_potential s' (ex_sigma l) = get_potential s l)
+  /\ (forall b, In b (branches ex_net) ->
+        get_voltage s' (ex_tau (bid b)) = get_voltage s (bid b)
+        /\ get_current s' (ex_tau (bid b)) = get_current s (bid b)
+        /\ get_power s' (ex_tau (bid b)) = get_power s (bid b)).
+Proof.
+  destruct (solvedb_ok CQ_ok ex_net C03_ex_wf C03_ex_solved) as [s [E _]].
+  destruct (solvedb_ok CQ_ok ex_ren (proj1 C03_ex_ren_solved) (proj2 C03_ex_ren_solved)) as [s' [E' _]].
+  exists s, s'. split; [exact E|]. split; [exact E'|].
+  exact (C03_rename_api CQ CQ_ok ex_sigma ex_tau ex_net s s' C03_ex_wf' C03_ex_wellposed
+           (inj_inj_on _ _ C03_ex_sigma_inj) (inj_inj_on _ _ C03_ex_tau_inj) E E').
+Qed.
+
+(* --- listing order: the branch list reversed --- *)
+Definition ex_perm : network CQ := {| branches := rev (branches ex_net); zero := zero ex_net |}.
+Example C03_ex_perm_hyp : Permutation (branches ex_net) (branches ex_perm) /\ zero ex_perm = zero ex_net.
+Proof. split; [apply Permutation_rev|reflexivity]. Qed.
+Example C03_ex_perm_solved : solvedb ex_perm = true.
+Proof. vm_compute. reflexivity. Qed.
+Example C03_ex_perm_applies : exists s s', solve_network ex_net = Ok s /\ solve_network ex_perm = Ok s'
+  /\ (forall l, In l (node_labels ex_net) -> get_potential s' l = get_potential s l)
+  /\ (forall b, In b (branches ex_net) ->
+        get_voltage s' (bid b) = get_voltage s (bid b)
+        /\ get_current s' (bid b) = get_current s (bid b)
+        /\ get_power s' (bid b) = get_power s (bid b)).
+Proof.
+  destruct (solvedb_ok CQ_ok ex_net C03_ex_wf C03_ex_solved) as [s [E _]].
+  assert (W : wfb ex_perm = true) by (vm_compute; reflexivity).
+  destruct (solvedb_ok CQ_ok ex_perm W C03_ex_perm_solved) as [s' [E' _]].
+  exists s, s'. split; [exact E|]. split; [exact E'|].
+  exact (C03_perm_api CQ CQ_ok ex_net ex_perm s s' C03_ex_wf' C03_ex_wellposed
+           (proj1 C03_ex_perm_hyp) (proj2 C03_ex_perm_hyp) E E').
+Qed.
+
+(* --- reversal of an ideal voltage source (V), an impedance (Z), a linear voltage source (L),
+       an ideal current source (I) and a linear current source (J) --- *)
+Definition ex_r (id : label) : bool :=
+  lmem id [L 86; L 90; L 76; L 73; L 74].
+Definition ex_rev : network CQ := reverse_net ex_r ex_net.
+Example C03_ex_rev_solved : wfb ex_rev = true /\ solvedb ex_rev = true.
+Proof. vm_compute. split; reflexivity. Qed.
+Example C03_ex_rev_some : exists b b', In b (branches ex_net) /\ ex_r (bid b) = true
+                                       /\ In b' (branches ex_net) /\ ex_r (bid b') = false.
+Proof. exists (Build_branch (L 49) (L 48) (voltage_source (L 86) (cq 5 1 1 1) (cq 0 1 0 1))),
+              (Build_branch (L 49) n10 (resistor (L 82) (cq 2 1 0 1))).
+  split; [left; reflexivity|]. split; [reflexivity|]. split; [right; left; reflexivity|reflexivity]. Qed.
+Example C03_ex_reverse_applies : exists s s', solve_network ex_net = Ok s /\ solve_network ex_rev = Ok s'
+  /\ (forall l, In l (node_labels ex_net) -> get_potential s' l = get_potential s l)
+  /\ (forall b, In b (branches ex_net) -> exists v i,
+        get_voltage s (bid b) = Ok v /\ get_current s (bid b) = Ok i
+        /\ get_power s (bid b) = Ok (fmul CQ v (fconj CQ i))
+        /\ get_voltage s' (bid b) = Ok (if ex_r (bid b) then fopp CQ v else v)
+        /\ get_current s' (bid b) = Ok (if ex_r (bid b) then fopp CQ i else i)
+        /\ get_power s' (bid b) = Ok (fmul CQ v (fconj CQ i))).
+Proof.
+  destruct (solvedb_ok CQ_ok ex_net C03_ex_wf C03_ex_solved) as [s [E _]].
+  destruct (solvedb_ok CQ_ok ex_rev (proj1 C03_ex_rev_solved) (proj2 C03_ex_rev_solved)) as [s' [E' _]].
+  exists s, s'. split; [exact E|]. split; [exact E'|].
+  exact (C03_reverse_api CQ CQ_ok ex_r ex_net s s' C03_ex_wf' C03_ex_wellposed E E').
+Qed.
+
+(* --- reference node moved from "0" to "10" --- *)
+Definition ex_gnd : network CQ := reground n10 ex_net.
+Example C03_ex_gnd_hyp : In n10 (node_labels ex_net).
+Proof. apply lmem_spec. vm_compute. reflexivity. Qed.
+Example C03_ex_gnd_solved : wfb ex_gnd = true /\ solvedb ex_gnd = true.
+Proof. vm_compute. split; reflexivity. Qed.
+(* the shift is not trivial: the potential of "10" in the original description is not 0 *)
+Example C03_ex_gnd_shift :
+  match solve_network ex_net with
+  | Ok s => match get_potential s n10 with Ok p => negb (feqb CQ p (f0 CQ)) | Err _ => false end
+  | Err _ => false
+  end = true.
+Proof. vm_compute. reflexivity. Qed.
+Example C03_ex_reground_applies : exists s s', solve_network ex_net = Ok s /\ solve_network ex_gnd = Ok s'
+  /\ (forall l, In l (node_labels ex_net) -> exists p pg,
+        get_potential s l = Ok p /\ get_potential s n10 = Ok pg /\ get_potential s' l = Ok (fsub CQ p pg))
+  /\ (forall b, In b (branches ex_net) ->
+        get_voltage s' (bid b) = get_voltage s (bid b)
+        /\ get_current s' (bid b) = get_current s (bid b)
+        /\ get_power s' (bid b) = get_power s (bid b)).
+Proof.
+  destruct (solvedb_ok CQ_ok ex_net C03_ex_wf C03_ex_solved) as [s [E _]].
+  destruct (solvedb_ok CQ_ok ex_gnd (proj1 C03_ex_gnd_solved) (proj2 C03_ex_gnd_solved)) as [s' [E' _]].
+  exists s, s'. split; [exact E|]. split; [exact E'|].
+  exact (C03_reground_api CQ CQ_ok n10 ex_net s s' C03_ex_wf' C03_ex_wellposed C03_ex_gnd_hyp E E').
+Qed.
